@@ -87,9 +87,10 @@ SigKinds == {"other_entry", "bitflip", "truncated", "empty"}
 PayloadClasses == {"empty", "ascii", "jsonspecial", "multibyte", "invalidutf8", "nul", "binary256", "long"}
 LinkShapes == {"nil", "empty", "one", "two"}
 ClockClasses == {"zero", "small", "big31", "maxint"}
+\* ident: "dev1" / "dev2" are two identities of the same user id (same id, different signing key and signatures)
 C08Shapes ==
   [k : {"c08"}, payload : PayloadClasses, next : LinkShapes, refs : LinkShapes, clock : ClockClasses,
-   codec : {"cbor", "cbor+lk1"}]
+   codec : {"cbor", "cbor+lk1"}, ident : {"dev1", "dev2"}]
 
 \* what decoding the stored form must give back: everything but the hash, refs only for v > 1,
 \* nil and empty lists identified
@@ -113,6 +114,14 @@ C12Obligations ==
   \cup {[k |-> "c12", obj |-> "entry", devs |-> {}], [k |-> "c12", obj |-> "manifest", devs |-> {}]}
   \cup (IF Pairwise THEN Pairs("entry", EntryFields) ELSE {})
 
+\* blocks of a link-encrypting log: the sealed side field decrypts (right key) to a CBOR map {next, refs};
+\* deviations of that inner value
+EncDeviations == {"emptylink", "badmultibase", "garbagelink", "wrongtype", "null", "notalist", "truncated", "valid"}
+C12EncObligations == {[k |-> "c12enc", f |-> f, d |-> d] : f \in {"next", "refs"}, d \in EncDeviations}
+
+\* C18: every entry shape written with a link key (also shapes Append never produces: references without predecessors)
+C18Shapes == [k : {"c18"}, nnext : 0..2, nrefs : 0..2, payload : {"ascii", "multibyte", "long"}, wkey : {"cbor+lk1", "cbor+lk2"}]
+
 \* the verdict the property demands for every wire shape: an error, or an entry that is total
 \* (every accessor, comparison and verification callable) - never a panic
 C12Verdicts == {"error", "total"}
@@ -131,5 +140,7 @@ ExportC07 == PrintT("OB " \o ToJson(ob))
 ExportAll ==
   /\ \A s \in C08Shapes : PrintT("OB " \o ToJson(s))
   /\ \A o \in C12Obligations : PrintT("OB " \o ToJson(o))
+  /\ \A o \in C12EncObligations : PrintT("OB " \o ToJson(o))
+  /\ \A o \in C18Shapes : PrintT("OB " \o ToJson(o))
   /\ \A k \in SigKinds : PrintT("OB " \o ToJson([k |-> "c07sig", kind |-> k]))
 =============================================================================
